@@ -561,7 +561,7 @@ func (g *FnGen) evalCall(x ECall, ctx *EvalCtx) Val {
 		if t == nil {
 			efail("unknown type %q in typeis", tn)
 		}
-		return Val{T: fmt.Sprintf("(= (dyntype %s) %d)", v.T, g.D.typeID(t)), S: sortBool}
+		return Val{T: and(not("(= "+v.T+" nil)"), fmt.Sprintf("(= (dyntype %s) %d)", v.T, g.D.typeID(t))), S: sortBool}
 	case "implements":
 		v := g.eval(x.Args[0], ctx)
 		tn := x.Args[1].(EStr).Val
